@@ -1,0 +1,17 @@
+//go:build verif
+
+package bandersnatch
+
+import "github.com/crate-crypto/go-ipa/bandersnatch/fr"
+
+// Verification hooks (build tag verif).
+
+// VerifPartitionScalars exposes partitionScalars.
+func VerifPartitionScalars(scalars []fr.Element, c uint64, scalarsMont bool, nbTasks int) ([]fr.Element, int) {
+	return partitionScalars(scalars, c, scalarsMont, nbTasks)
+}
+
+// VerifMsmInner exposes msmInnerPointProj (scalars must already be partitioned for window c).
+func VerifMsmInner(p *PointProj, c int, points []PointAffine, scalars []fr.Element, splitFirstChunk bool) {
+	msmInnerPointProj(p, c, points, scalars, splitFirstChunk)
+}
